@@ -30,7 +30,7 @@ CLASSIC = ["H", "T", "this", "other", "state", "f", "rhs", "source", "lhs", "o",
 CLASSIC_LT = ["'a", "'b", "'x", "'this"]
 
 ROLE_TOKENS = {
-    "type": ["Ty"],
+    "type": ["Ty", "Ty2"],
     "field": ["f0", "f1", "f2", "f3"],
     "variant": ["V0", "V1", "V2", "V3", "V4"],
     "tparam": ["T", "U"],
